@@ -59,6 +59,8 @@ def gen_hist_case(rng, max_n=6, max_ops=7):
                 if rng.random() < 0.7:  # restart with the same selection
                     for k in ("target", "exclude", "root", "cache_deps_of", "run_debug"):
                         op[k] = srcop[k]
+            if rng.random() < 0.2 and cache_deps_of is None and op["from_cache"] is None:
+                op.update(defer=True, cache_in=False, again=False)
             if op["cache_in"]:
                 execs.append(len(ops))
             ops.append(op)
@@ -169,7 +171,24 @@ def run_history(case, tmpdir):
     caches = {}
     cur = d
     originals = []
-    for oi, op in enumerate(case["ops"]):
+    def run_deferred(p):
+        exo, op, inst = p
+        o = dict(op=op, instance=id(inst), deferred=True)
+        o["done_before"] = sorted(x for x in inst.results.keys() if x in inst.exec_nodes and inst.exec_nodes[x].setup)
+        tawazi.cfg.RUN_DEBUG_NODES = bool(op.get("run_debug"))
+        try:
+            st, ex, cnt, ctl = run_op(inst, lambda: exo(*op["args"]))
+        finally:
+            tawazi.cfg.RUN_DEBUG_NODES = False
+        o["status"] = st[0]
+        o["value"] = st[1] if st[0] == "ok" else None
+        o["error"] = None if st[0] == "ok" else "%s: %s" % (type(st[1]).__name__, str(st[1])[:150])
+        o["executed"] = ex
+        o["dup"] = sorted(x for x, c in cnt.items() if c > 1)
+        obs.append(o)
+
+    def do_op(oi, op):
+        nonlocal cur
         o = dict(op=op, instance=id(cur))
         k = op["kind"]
         done_before = sorted(x for x in cur.results.keys() if x in cur.exec_nodes and cur.exec_nodes[x].setup)
@@ -181,7 +200,7 @@ def run_history(case, tmpdir):
             o["executed"] = []
             o["new_instance"] = id(cur)
             obs.append(o)
-            continue
+            return
         if k in ("config", "compose"):
             o["executed"] = []
             try:
@@ -200,7 +219,7 @@ def run_history(case, tmpdir):
                 o["status"] = "other-raise"
                 o["error"] = "%s: %s" % (type(e).__name__, str(e)[:150])
             obs.append(o)
-            continue
+            return
         tawazi.cfg.RUN_DEBUG_NODES = bool(op.get("run_debug"))
         try:
             if k == "call":
@@ -218,7 +237,7 @@ def run_history(case, tmpdir):
                     except BaseException as e:  # noqa: BLE001
                         o.update(status="ctor-raise", error="%s: %s" % (type(e).__name__, e), executed=[])
                         obs.append(o)
-                        continue
+                        return
                     if post:
                         # every node succeeds; writing the cache file after the run fails
                         pargs = [Poison(op["args"][0])] + list(op["args"][1:])
@@ -244,11 +263,11 @@ def run_history(case, tmpdir):
                 except ValueError as e:
                     o.update(status="ValueError", error=str(e)[:200], executed=[])
                     obs.append(o)
-                    continue
+                    return
                 except BaseException as e:  # noqa: BLE001
                     o.update(status="ctor-raise", error="%s: %s" % (type(e).__name__, str(e)[:200]), executed=[])
                     obs.append(o)
-                    continue
+                    return
                 st, ex, cnt, ctl = run_op(cur, lambda: exo(*op["args"]))
                 if st[0] == "ok" and op["cache_in"]:
                     try:
@@ -270,6 +289,26 @@ def run_history(case, tmpdir):
         o["executed"] = ex
         o["dup"] = sorted(x for x, c in cnt.items() if c > 1)
         obs.append(o)
+    # an executor may be CREATED at one point of the history and RUN after the next operation (a setup, a call,
+    # a reconfiguration ... in between): it reads the instance's setup results when it runs
+    pending = None
+    for oi, op in enumerate(case["ops"]):
+        if op["kind"] == "exec" and op.get("defer") and pending is None:
+            kw = dict(target_nodes=names(op["target"]), exclude_nodes=names(op["exclude"]), root_nodes=names(op["root"]))
+            tawazi.cfg.RUN_DEBUG_NODES = bool(op.get("run_debug"))
+            try:
+                pending = (cur.executor(**kw), op, cur)
+            except BaseException:  # noqa: BLE001
+                do_op(oi, dict(op, defer=False))
+            finally:
+                tawazi.cfg.RUN_DEBUG_NODES = False
+            continue
+        do_op(oi, op)
+        if pending is not None:
+            run_deferred(pending)
+            pending = None
+    if pending is not None:
+        run_deferred(pending)
     # C15: one more call behaves as on a freshly built instance
     st, ex, cnt, ctl = run_op(cur, lambda: cur(*case["final_args"]))
     fresh = build(case)
